@@ -12,6 +12,8 @@
 # WITHOUT WARRANTIES OR CONDITIONS OF ANY KIND, either express or implied.
 # See the License for the specific language governing permissions and
 # limitations under the License.
+import copy
+
 import numpy as np
 
 import graphiq.circuit.ops as ops
@@ -282,7 +284,8 @@ class MonteCarloNoise:
     def _noisy_gates(self):
         noise_model_map = self.mc_noise_model.mapping
         circ = self.circuit
-        seq = circ._slim_seq()
+        # work on copies: the sampled noise must not be written into the operations of the input circuit
+        seq = [copy.deepcopy(op) for op in circ._slim_seq()]
         noisy_ops = []
         for op in seq:
             is_controlled = False
